@@ -180,6 +180,54 @@ def rule_api(ctx) -> None:
                   "the script catches only ConfigError around validation", "the script catches more than ConfigError around validation")
 
 
+def rule_cli_forwarding(ctx) -> None:
+    """"the same verdict ... through all of its API variants and the CLI": the umbrella CLI delegates to the script's main(argv).
+    main parses argv[1:] - argv[0] is the program name - so a caller that passes only the user's arguments loses the first one,
+    the config path, and the default configs/config.yaml is validated instead (OK, exit 0, for a config the API rejects).
+    Call-site / callee protocol agreement."""
+    sc = ctx.prog.modules.get("clematis.scripts.validate")
+    mains = [f for f in sc.funcs.values() if f.name == "main"] if sc else []
+    if not mains:
+        raise AnalysisError("anchor-vanished: clematis.scripts.validate:main")
+    main = mains[0]
+    skips_first = any(isinstance(x, ast.Subscript) and isinstance(x.value, ast.Name) and x.value.id in main.params and isinstance(x.slice, ast.Slice) and isinstance(x.slice.lower, ast.Constant)
+                      and x.slice.lower.value == 1 for x in walk_no_defs(main.node))
+    n_calls = 0
+    cli = ctx.prog.modules.get("clematis.cli.validate")
+    if cli is None:
+        raise AnalysisError("anchor-vanished: clematis.cli.validate")
+    for fn in cli.funcs.values():
+        rd = None
+        for x in walk_no_defs(fn.node):
+            if not (isinstance(x, ast.Call) and x.args):
+                continue
+            r = ctx.prog.callee(fn, x)
+            if not (r and r[0] == "func" and r[1] == main.qual):
+                continue
+            n_calls += 1
+            rd = rd or ctx.rd(fn)
+            at = (ctx.cfg(fn).node_containing(x) or [None])[0]
+            a = rd.inline(x.args[0], at) if at is not None else x.args[0]
+            has_prog = (isinstance(a, ast.List) and a.elts and isinstance(a.elts[0], ast.Constant)) or "sys.argv" in src(a)
+            ctx.check((not skips_first) or has_prog, "C14.API", ctx.okey(f"{fn.qual}/forwards-all-arguments"), fn.loc(x),
+                      "the delegate receives a program name followed by the user's arguments (it parses argv[1:])",
+                      f"`{src(x)[:50]}` hands the delegate the user's arguments only, but main() parses argv[1:]: the first argument - the config path - is dropped and configs/config.yaml is "
+                      "validated instead, so the CLI says OK (exit 0) for a config that validate_config and the script reject")
+        # the JSON branch parses a slice of the delegate's output: that parse must be guarded
+        for x in walk_no_defs(fn.node):
+            pass
+    ctx.floor("C14.API", "calls of the script's main from the umbrella CLI", n_calls, 1)
+    # json.loads on text cut out of the delegate's output is guarded (an error message may contain braces)
+    for fn in cli.funcs.values():
+        for x in walk_no_defs(fn.node):
+            if isinstance(x, ast.Call) and dotted(x.func) == "json.loads":
+                from ..util import enclosing as _enc
+                guarded = any(isinstance(st, ast.Try) and part == "body" for st, part in _enc(ctx.prog, fn, x))
+                ctx.check(guarded, "C14.API", ctx.okey(f"{fn.qual}/json-slice-parse-guarded"), fn.loc(x), "json.loads of the extracted block is inside a try",
+                          "the CLI cuts the text between the first '{' and the last '}' of the delegate's output and parses it unguarded: a validation message with braces "
+                          "(`must be one of {inmemory,lancedb}`) ends in an uncaught JSONDecodeError instead of the typed verdict")
+
+
 # ------------------------------------------------------------------- DET
 def _set_globals(m) -> Set[str]:
     out = set()
@@ -875,6 +923,7 @@ def run(ctx) -> None:
     rule_capacity_floor(ctx)
     rule_pure(ctx)
     rule_api(ctx)
+    rule_cli_forwarding(ctx)
     rule_det(ctx)
     rule_range(ctx)
     rule_total(ctx)
